@@ -205,8 +205,10 @@ AppRecv(e) == e.ev = "apprecv" =>
    /\ ~e.desync /\ e.bytes = e.expect
    /\ r.ok /\ e.ok /\ RecOf(e.msg2) = r.msg
    /\ e.type = (IF r.msg.kind = "ctrl" THEN TypeOf(r.msg.hdr[5], r.msg.hdr[6]) ELSE "data message")
+\* the byte stream of one direction falls apart into exactly the frames that were sent, by their length fields alone
+AppStream(e) == e.ev = "appstream" => (e.cut = e.frames /\ e.rest = 0 /\ e.same /\ e.allok)
 AppBuilt(e) == e.ev # "appfail"                 \* the library made every message the protocol asked for
-PropApp(e) == AppRecv(e) /\ AppBuilt(e)
+PropApp(e) == AppRecv(e) /\ AppBuilt(e) /\ AppStream(e)
 \* a request constructor given more than four system bytes refuses, or yields a 14-byte message like any other (its
 \* system bytes four consecutive ones of those given) that decodes to an equal message
 C14Over(e) == e.ev = "sysover" =>
@@ -257,6 +259,7 @@ PropRoute(e) == e.ev = "bigroute" =>
    ELSE /\ e.built = Constructible(0, e.n)
         /\ e.built => e.enclen = 2 + Len(ItemHeader(0, e.n)) + 3 * e.n + 3
 InvApp == l > 0 => PropApp(E)
+InvAppStream == l > 0 => AppStream(E)
 InvSeq == l > 0 => PropSeq(E) /\ PropFlat(E) /\ PropRoute(E)
 InvExpect == l > 0 => PropExpect(E)
 InvC01 == l > 0 => PropC01(E)
